@@ -99,6 +99,7 @@ package parser
 //@ ensures l.pos == old(l.pos)
 //@ ensures int(l.pos) >= len(l.input) ==> result == -1
 //@ ensures int(l.pos) < len(l.input) && result < 128 && result >= 0 ==> int(l.input[int(l.pos)]) == int(result)
+//@ ensures int(l.pos) < len(l.input) && l.input[int(l.pos)] < 128 ==> int(result) == int(l.input[int(l.pos)])
 
 // emit: the item is the text between start and pos, and start moves to pos
 //@ func (*Lexer).emit
@@ -164,9 +165,17 @@ package parser
 //@ ensures l.scannedItem && l.itemp.Typ != ERROR ==> l.itemp.Pos >= old(l.start) && blanks(l.input, old(l.start), l.itemp.Pos) && int(l.start) == int(l.itemp.Pos) + len(l.itemp.Val)
 
 //@ func lexStatements
-//@ props C05
+//@ props C05 C07
 //@ implements parser.stateFn
 //@ exits separate
+// C07: which kind of string literal starts at a quote.  A quote followed by anything but the same quote opens an
+// ordinary string closed by that quote (the other quote is content); the same quote twice and then something else is
+// the empty string; the same quote three times opens a raw multi-line string.
+//@ spec quoteAt(l *Lexer, i int) bool = 0 <= i && i < len(l.input) && (l.input[i] == 34 || l.input[i] == 39)
+//@ spec sameAt(l *Lexer, i int, j int) bool = 0 <= i && j < len(l.input) && l.input[j] == l.input[i]
+//@ ensures[C07] quoteAt(l, old(int(l.pos))) && !sameAt(l, old(int(l.pos)), old(int(l.pos)) + 1) ==> result == lexString && !l.scannedItem && int(l.pos) == old(int(l.pos)) + 1 && (l.input[old(int(l.pos))] == 34 ==> l.stringOpen == 34) && (l.input[old(int(l.pos))] == 39 ==> l.stringOpen == 39)
+//@ ensures[C07] quoteAt(l, old(int(l.pos))) && sameAt(l, old(int(l.pos)), old(int(l.pos)) + 1) && !sameAt(l, old(int(l.pos)), old(int(l.pos)) + 2) ==> l.scannedItem && l.itemp.Typ == STRING && int(l.itemp.Pos) == old(int(l.pos)) && len(l.itemp.Val) == 2
+//@ ensures[C07] quoteAt(l, old(int(l.pos))) && sameAt(l, old(int(l.pos)), old(int(l.pos)) + 1) && sameAt(l, old(int(l.pos)), old(int(l.pos)) + 2) ==> result == lexMultilineString && !l.scannedItem && int(l.pos) == old(int(l.pos)) + 3
 //@ func lexKeywordOrIdentifier
 //@ props C05 C07
 //@ implements parser.stateFn
@@ -445,7 +454,7 @@ package parser
 // ---- unquoting (adapted from strconv) ----------------------------------------------------------------
 
 //@ func unhex
-//@ props C07
+//@ props C07 C05
 //@ pure
 //@ ensures 48 <= b && b <= 57 ==> result1 && result0 == rune(b) - 48
 //@ ensures 97 <= b && b <= 102 ==> result1 && result0 == rune(b) - 97 + 10
@@ -454,7 +463,7 @@ package parser
 //@ ensures result1 ==> 0 <= result0 && result0 <= 15
 
 //@ func contains
-//@ props C07
+//@ props C07 C05
 //@ pure
 //@ ensures result <==> (exists i :: 0 <= i && i < len(s) && s[i] == c)
 //@ loop 1
@@ -462,7 +471,7 @@ package parser
 
 // one character or escape sequence of a quoted string (Go-style escapes)
 //@ func unquoteChar
-//@ props C07
+//@ props C07 C05
 //@ intmode bv64
 //@ requires len(s) >= 1
 //@ ensures multiline && s[0] < 128 ==> result3 == nil && result0 == rune(s[0]) && !result1 && result2 == s[1:]
@@ -500,7 +509,7 @@ package parser
 // without backslash and quote is taken as it is; a malformed escape is an error
 // (what `contains` answers is its own contract: some byte of the text equals the given byte)
 //@ func Unquote
-//@ props C07
+//@ props C07 C05
 //@ exits separate
 //@ ensures len(s) < 2 ==> result1 != nil
 //@ ensures len(s) >= 2 && s[0] != s[len(s)-1] ==> result1 != nil
@@ -517,7 +526,7 @@ package parser
 //@ invariant forall k mathint :: 0 <= k && k < ncalls(unquoteChar) ==> callarg(unquoteChar, k, 1) == quote && !callarg(unquoteChar, k, 2) && callres(unquoteChar, k, 3) == nil
 
 //@ func UnquoteMultiline
-//@ props C07
+//@ props C07 C05
 //@ exits separate
 //@ ensures len(s) < 6 ==> result1 != nil
 //@ ensures len(s) == 6 ==> result1 == nil && result0 == ""
